@@ -977,6 +977,12 @@ def step (w : World) (line : String) : World × String :=
       let hist := (w.imports.lookup sid).getD []
       ({ w with imports := (sid, hist.filter (·.1 != ns)) :: w.imports.filter (·.1 != sid) }, "ok")
     | _, _ => (w, "bad-op")
+  -- specification: close reports whether the document is closed afterwards (no handle left by the
+  -- history of acknowledged opens and releases)
+  | ["sclose", sid, ns] =>
+    match parseNat? sid, Bytes.ofHex ns with
+    | some sid, some ns => (w, if (w.handleCounts.lookup (sid, ns)).getD 0 > 0 then "ok 0" else "ok 1")
+    | _, _ => (w, "bad-op")
   -- specification: a drop is refused exactly while, after releasing its own handle, the document
   -- still holds one (by the history of acknowledged opens and releases)
   | ["sdrop", sid, ns] =>
